@@ -11,13 +11,17 @@ import (
 
 // Outcome codes of one plugin invocation (scripted per action, per invocation number).
 const (
-	OK        = "ok" // success with a well typed response
-	Perm      = "F"  // permanent error
-	Trans     = "T"  // transient (retryable) error
-	WrongType = "X"  // success with a response of the wrong type
-	Overrun   = "O"  // never answers; returns only when its context is cancelled
-	NilResp   = "N"  // success with a nil response
-	Late      = "L"  // ignores the cancellation of its context and answers ok whenever it is released (possibly after its timeout)
+	OK         = "ok" // success with a well typed response
+	Perm       = "F"  // permanent error
+	Trans      = "T"  // transient (retryable) error
+	WrongType  = "X"  // success with a response of the wrong type
+	Overrun    = "O"  // never answers; returns only when its context is cancelled
+	NilResp    = "N"  // success with a nil response
+	Late       = "L"  // ignores the cancellation of its context and answers ok whenever it is released (possibly after its timeout)
+	RespPerm   = "Bp" // a well typed response together with a permanent error (a partial result): a permanent failure
+	RespTrans  = "Bt" // a well typed response together with a transient error: a retryable failure
+	WrongTrans = "Xt" // a response of the wrong type together with a transient error: permanent failure, response not stored
+	WrongPerm  = "Xp" // a response of the wrong type together with a permanent error: permanent failure, response not stored
 )
 
 // ActSpec describes one action: the outcome of its k-th invocation in this process world is
